@@ -441,6 +441,69 @@ def run(F, chk):
     chk.extra["finalize_member_writes"] = nw
     chk.floor(R3, 5)
 
+    # ---- R2.7 membership mirrors in the pre-write pipeline
+    R7 = chk.rule("R2.7", "in the pre-write pipeline, a local list that is asked `contains(list, x)` to decide whether x still has "
+                          "to be added to a second container mirrors that container: every insertion into the container is "
+                          "accompanied, in the same block, by the insertion of the same value into the list (otherwise the "
+                          "'add what is missing' step adds the value again on every save)")
+    INS = ("push_back", "emplace_back", "insert", "AddBlockRef", "AddBlock", "emplace")
+    npairs = 0
+    for fid in sorted(reach | set(F.reachable([x["id"] for x in F.fns.values() if x["name"] in ("nifly::NifFile::PrettySortBlocks",)]))):
+        fn = F.fns.get(fid)
+        if not fn or not fn.get("body") or fn.get("tmpl") == "pattern":
+            continue
+
+        def ins_of(stmt):
+            """(container text, value text) of an insertion statement"""
+            if is_node(stmt) and stmt["k"] == "Call" and stmt.get("short") in INS and is_node(stmt.get("recv")) and stmt.get("args"):
+                return show(stmt["recv"]), show(stmt["args"][-1])
+            return None
+
+        pairs = set()
+        for n in walk(fn["body"]):
+            if n["k"] != "If" or not is_node(n.get("cond")):
+                continue
+            tested = None
+            for c in walk(n["cond"]):
+                if c["k"] == "Unary" and c["op"] == "!" and is_node(c["e"]):
+                    e = c["e"]
+                    while is_node(e) and e["k"] in ("Cast", "Paren"):
+                        e = e["e"]
+                    if is_node(e) and e["k"] == "Call" and e.get("short") == "contains" and len(e.get("args", [])) == 2:
+                        a0 = e["args"][0]
+                        while is_node(a0) and a0["k"] == "Cast":
+                            a0 = a0["e"]
+                        if is_node(a0) and a0["k"] == "Ref" and a0.get("rk") == "local":
+                            tested = (show(a0), show(e["args"][1]))
+            if tested is None:
+                continue
+            inserted = [ins_of(x) for x in walk(n.get("then") or {})]
+            inserted = [x for x in inserted if x and x[1] == tested[1]]
+            if any(c == tested[0] for c, _ in inserted):
+                for c, _ in inserted:
+                    if c != tested[0]:
+                        pairs.add((tested[0], c))
+        for mirror, cont in sorted(pairs):
+            npairs += 1
+            for blk in walk(fn["body"]):
+                if blk["k"] not in ("Compound", "If", "RangeFor", "For", "While"):
+                    continue
+                stmts = blk.get("body", []) if blk["k"] == "Compound" else [blk.get("then"), blk.get("else")] if blk["k"] == "If" else [blk.get("body")]
+                for st_ in stmts:
+                    i_ = ins_of(st_)
+                    if not i_ or i_[0] != cont:
+                        continue
+                    sibs = blk.get("body", []) if blk["k"] == "Compound" else [st_]
+                    ok = any(ins_of(y) == (mirror, i_[1]) for y in sibs)
+                    chk.instance(R7, ok=ok, sample={"fn": fn["name"], "container": cont, "mirror": mirror, "value": i_[1]})
+                    if not ok:
+                        chk.violation("R2.7", "C02/R2.7:%s:%s:%s" % (strip_targs(fn["name"]), cont, mirror), where(fn, st_),
+                                      "%s adds `%s` to `%s` without recording it in `%s`, the list its later `!contains(%s, ...)` "
+                                      "test consults before adding what is still missing: the value is added a second time, on every "
+                                      "save" % (fn["name"], i_[1], cont, mirror, mirror))
+    chk.extra["membership_mirrors"] = npairs
+    chk.floor(R7, 5)
+
     chk.assumptions += ["member paths are compared canonically; distinct paths are assumed not to alias",
                         "whether FinalizeData is idempotent on values, and equality of query results in general, are not decided"]
     chk.extra["explanation"] = ("write-path effect analysis for every registered class: no write-then-mutate, census of write-mode "
